@@ -10,6 +10,10 @@ CLAIMED = {
          "Whole programs (functions, closures, loops, early returns, static/dynamic/native calls, tables, submodule) are generated well-scoped by construction and run both through compile+VM and through a reference AST interpreter that shares no code or representation with cao-lang; outcome kind, all globals read by name and the host-call log must agree exactly. Class coverage (calls above other frames, loops with locals, return in loop, dynamic calls, table ops, >16 globals) is measured and has floors. Search, not proof.",
          "Trusts the reference interpreter (src/refsem.rs) as the meaning of the card language; situations the language leaves undefined are discarded by the reference, never guessed. No collection runs (256 MiB limit).",
          "DESIGN.md section 4, C01"),
+ "C04": ("exploration", "generated-input totality testing in isolated worker processes with a watchdog (proptest-driven; fork probes for inputs known to be able to kill the process)",
+         "Four generated families: arbitrary card trees through the JSON and YAML loaders into the compiler (and, when they compile, into the VM), structured compile stress around every documented limit (globals, locals, upvalues, functions, card nesting, submodule depth, super chains), run-time stress templates (recursion, wide expressions, numeric boundaries, wrong operand types, cyclic tables, reserved-hash keys, tiny budgets, odd stdlib inputs) and random well-scoped programs under random budget/value-stack/call-stack sizes. A case passes when compile and run return a value; panics are caught per case, signals and hangs by the parent process, which re-runs the case twice in isolation before reporting. Search, not proof.",
+         "Memory limits are not varied (collections are C02/C05). Which of Ok/Err is returned is asserted only where a template forces it (value-stack exhaustion, calling a non-function).",
+         "DESIGN.md section 4, C04"),
  "C06": ("exploration", "differential testing against a by-reference-cell reference interpreter with a closure-biased program generator (proptest-driven)",
          "Same differential as C01 with a generator that creates closures in frames above other values, in loop bodies, nested, in a submodule, and calls each stored closure twice around a write to a visible variable (also through re-entering natives); every closure body logs a unique tag so a wrong body is visible; the reference uses shared Rc cells with a fresh cell per scope entry.",
          "Same trusted base as C01.",
@@ -26,6 +30,10 @@ CLAIMED = {
          "Random triples of host-constructed values with deliberately related members (equal-content copies, reordered/prefix/deep-different tables, int/real twins, length twins, signed zeros, 2^53/2^63 edges); all ordered pairs are checked against the equivalence, hash-consistency (std hash and table-key aliasing), order/equality coherence, asymmetry and numeric-model laws exactly on the domains the statement gives. Search, not proof.",
          "The numeric model encodes the statement's coercions (nil=0, string/table=length against a number); ints beyond 2^53 against reals and reordered tables are observed, not asserted.",
          "DESIGN.md section 4, C19"),
+ "C10": ("exploration", "independent bytecode verifier over every compiled output of three program generators (proptest-driven)",
+         "Every module that compiles - well-scoped programs, closure-heavy programs and arbitrary card trees - is decoded front to back by a verifier with its own opcode and operand-width table (cross-checked against the crate's table through a hook) and checked for: known opcodes, complete operands, final Exit, jump/label/trace targets on instruction starts, labelled function/closure handles with consistent arity, complete UTF-8 strings, local/upvalue/global index ranges, id<->name bijection, trace coverage, and agreement with the crate's disassembler walk. All bytes of all outputs, not only executed paths.",
+         "Trusts the verifier's own table (47 entries, cross-checked at start-up); arity of the named definition is checked for consistency across uses, not against the source.",
+         "DESIGN.md section 4, C10"),
  "C12": ("exploration", "proptest-driven model-based testing of operation histories against std HashMap, with controlled-hash keys and fail-at-n allocation fault sweeps",
          "Random histories (<=200 ops) over keys whose hash bytes the generator chooses (collision groups for every capacity of the growth sequence, wrap-around homes, equal-hash twins, the reserved hash 0), compared with std::collections::HashMap after every operation including full get/contains/iter of every key ever used, a per-instance drop ledger and an allocator ledger; one third of the cases re-run the history once per allocation index with that allocation failing (exhaustive over the single failure points of that history). Search, not proof.",
          "Trusts std HashMap as reference and the 32-bit FNV/home formulas only for *choosing* keys (a wrong formula weakens coverage labels, not soundness). Clone is exempt from failure injection.",
